@@ -391,6 +391,15 @@ class Snapshot:
         """Undo whatever leaked so that one violation does not cascade into the following cases."""
         sys.stdout = self.stdout
         time.sleep = self.sleep
+        collector = sys.modules.get('coverage.collector')
+        if collector is not None:
+            # (a measurement of coverage.py that was never ended would be resumed at the end of every later one)
+            for c in reversed(list(collector.Collector._collectors)):
+                try:
+                    c.pause()
+                except Exception:
+                    pass
+            del collector.Collector._collectors[:]
         sys.settrace(self.trace)
         sys.modules = self.module_table
         for k in list(sys.modules):
@@ -399,6 +408,12 @@ class Snapshot:
         for k, v in self.modules.items():
             if sys.modules.get(k) is not v:
                 sys.modules[k] = v
+
+
+def measurements_left_running():
+    """coverage.py keeps the measurements that were started and not ended on a stack of its own"""
+    collector = sys.modules.get('coverage.collector')
+    return len(collector.Collector._collectors) if collector is not None else 0
 
 
 def safe_text(exc):
@@ -631,6 +646,13 @@ def _measured(ctx, which, case, sandbox, report, files, inputs, n_rt_before):
                 while time.time() < end and any(t is not threading.main_thread() and t.is_alive() and type(t).__name__ == 'InterruptableThread'
                                                 for t in threading.enumerate()):
                     time.sleep(0.01)
+                if time.time() < end and measurements_left_running() > case.get('_measuring_before', 0):
+                    # (no student thread is alive any more, and a measurement that was started for it has not been ended: it
+                    # would be resumed - in this thread - when a later one ends)
+                    ctx.violation('C05|not-restored|coverage-measurement-left-running|tracer=%s|after-the-interrupted-program-ended%s'
+                                  % (tracer, '' if envname == 'plain' else '|' + envname), strip(case),
+                                  "%d measurement(s) on coverage.py's stack" % measurements_left_running())
+                    snap.restore()
             try:
                 sbx.clear_output()
                 sbx.run(code='print("probe-text")')
@@ -863,6 +885,9 @@ def _run(ctx, which):
             ctx.count('cells_not_reached_budget')
             break
         execute_case(ctx, which, c)
+    if which == 'C05':
+        for case in unwinding_cells()[ctx.shard::ctx.nshards]:
+            run_unwinding(ctx, case)
     if ctx.shard == 0 and which == 'C05':
         sequences(ctx, which)
 
@@ -906,7 +931,110 @@ def sequences(ctx, which, n=None):
         ctx.case('seq:' + '>'.join(names) + ':' + tracer)
 
 
+# ---------------------------------------------------------------------------------------------------------------------
+# C05: the next grading starts while the program that ran out of time is still unwinding
+# ---------------------------------------------------------------------------------------------------------------------
+# The program's clean-up (a finally block) goes on until the harness lets it end - by setting the program's own global through
+# the sandbox the harness still holds - so "still unwinding while the next execution runs" is a fact of the run, not of timing.
+UNWINDING = ("release = False\n"
+             "def spin():\n    try:\n        while True:\n            pass\n    finally:\n        while not release:\n            pass\n")
+UNWINDING_NEXT = ['new-sandbox', 'new-sandbox-threaded', 'same-sandbox']
+
+
+def unwinding_cells():
+    return [{'scenario': 'unwinding', 'tracer': a, 'next_tracer': b, 'entry': e, 'next': n}
+            for a in TRACERS for b in TRACERS for e in ('run', 'call') for n in UNWINDING_NEXT
+            if not (n == 'same-sandbox' and a != b)]
+
+
+def run_unwinding(ctx, case):
+    import threading
+    from pedal.sandbox import commands as sbx
+    a, b, entry, nxt = case['tracer'], case['next_tracer'], case['entry'], case['next']
+    tail = 'first=%s/%s|next=%s/%s' % (a, entry, b, nxt)
+    try:
+        sandbox, report = new_sandbox({'answer.py': UNWINDING + ('spin()\n' if entry == 'run' else '')}, a, True, allowed_time=0.15)
+        if entry == 'call':
+            sbx.run()
+            if sbx.get_exception() is not None:
+                ctx.count('setup_run_failed')
+                return
+    except ImportError:
+        ctx.count('tracer_unavailable')
+        return
+
+    def judge(snap, box, stage):
+        diffs = snap.diff(box)
+        ctx.count('state_comparisons')
+        for what, detail in diffs:
+            ctx.violation('C05|not-restored|%s|%s|%s' % (what, stage, tail), dict(case), {'what': what, 'detail': detail})
+        if diffs:
+            snap.restore()
+            box._current_patches.clear()
+            box._current_stdout.clear()
+        return not diffs
+
+    def probe(box, stage, text):
+        raised = None
+        try:
+            sbx.clear_output()
+            sbx.run(code='print(%r)' % text)
+            got = sbx.get_raw_output()
+        except BaseException as e:
+            raised, got = e, None
+        ctx.count('probe_runs')
+        if raised is not None:
+            ctx.violation('C05|probe-raised|%s|%s|%s' % (type(raised).__name__, stage, tail), dict(case), safe_repr(raised)[:300])
+        elif got != text + '\n':
+            ctx.violation('C05|probe-output-wrong|%s|%s' % (stage, tail), dict(case), 'probe run captured %r' % (got or '')[:200])
+
+    snap = Snapshot(sandbox)
+    try:
+        sbx.run() if entry == 'run' else sbx.call('spin')
+    except BaseException as e:
+        ctx.violation('C05|time-limit-raised|%s|%s' % (type(e).__name__, tail), dict(case), safe_repr(e)[:300])
+    ctx.count('executions')
+    ok = judge(snap, sandbox, 'after-time-limit')
+    zombies = [t for t in threading.enumerate() if type(t).__name__ == 'InterruptableThread' and t.is_alive()]
+    if not zombies or type(unwrap(sbx.get_exception())).__name__ != 'TimeoutError':
+        ctx.undecided('the program was not interrupted while it ran (%s)' % tail)
+        sandbox.data['release'] = True
+        return
+    try:
+        if ok:
+            # ---- the next grading begins at once
+            if nxt == 'same-sandbox':
+                box = sandbox
+                box.allowed_time = 20
+            else:
+                box, _ = new_sandbox({'answer.py': "print('next')\n"}, b, nxt == 'new-sandbox-threaded', allowed_time=20)
+            snap2 = Snapshot(box)
+            probe(box, 'while-the-interrupted-program-unwinds', 'next one')
+            ok = judge(snap2, box, 'after-next-execution-while-the-interrupted-program-unwinds')
+            still = all(t.is_alive() for t in zombies)
+    finally:
+        sandbox.data['release'] = True
+        for t in zombies:
+            t.join(8)
+    if any(t.is_alive() for t in zombies):
+        ctx.undecided('the interrupted program did not end after it was released (%s)' % tail)
+        return
+    if ok:
+        if not still:
+            ctx.undecided('the interrupted program ended by itself before the next execution did (%s)' % tail)
+            return
+        ctx.count('next_executions_overlapping_an_unwinding_program')
+        ok = judge(snap2, box, 'after-the-interrupted-program-ended')
+    if ok:
+        probe(box, 'after-the-interrupted-program-ended', 'later one')
+        judge(snap2, box, 'after-a-later-execution')
+    ctx.seen('tracers', a)
+    ctx.case('unwinding/' + tail)
+
+
 def replay(ctx, which, case):
+    if case.get('scenario') == 'unwinding':
+        return run_unwinding(ctx, case)
     if 'sequence' in case:
         from pedal.sandbox import commands as sbx
         by = {m['mode']: m for m in all_modes()}
